@@ -83,6 +83,26 @@ theorem onError_log (t : Task) (s : State) : (onError t s).log = s.log := by
 /-- the prompt (if any) is answered yes and the process is not killed -/
 def Passes (t : Task) (e : Env) : Prop := (t.prompt = false ∨ e.yes = true) ∧ e.killAt = none
 
+/-- the prompt is declined (answer no, or no terminal to ask on) -/
+def Declined (t : Task) (e : Env) : Prop := t.prompt = true ∧ e.yes = false
+
+instance (t : Task) (e : Env) : Decidable (Declined t e) := by unfold Declined; infer_instance
+
+theorem passes_of_not_declined {t : Task} {e : Env} (hk : e.killAt = none) (h : ¬ Declined t e) : Passes t e := by
+  refine ⟨?_, hk⟩
+  unfold Declined at h
+  cases hp : t.prompt
+  · exact Or.inl rfl
+  · cases hy : e.yes
+    · exact absurd ⟨hp, hy⟩ h
+    · exact Or.inr rfl
+
+/-- **a declined prompt**: no command-loop attempt; `statusOnError` is applied to the state the
+up-to-date check left, and the task is reported cancelled. -/
+theorem runBody_declined (i : Nat) (t : Task) (e : Env) (s : State) (hd : Declined t e) :
+    runBody cfg H pr i t false e s = (onError t s, ⟨.cancelled, false, [], []⟩) := by
+  simp [runBody, hd.1, hd.2]
+
 /-- **effect of the body**: one attempt is logged at the fingerprint of the state it started
 from; on success the stores are untouched, on failure `OnError` removes the checksum. -/
 theorem runBody_effect (i : Nat) (t : Task) (e : Env) (s : State) (hp : Passes t e) :
